@@ -19,7 +19,7 @@ pub struct Case {
     pub rtol: Tol,
     pub atol: Tol,
     pub analytic_jac: bool,
-    pub t_eval: Vec<f64>,
+    pub t_eval: Vec<Place>,
     pub events: Vec<EvSpec>,
     pub max_step: Option<f64>,
     pub max_steps: Option<usize>,
@@ -69,12 +69,13 @@ pub fn check(c: &Case) -> Outcome {
     crate::props::c03::fix_events(&mut events, n);
     let evs = resolve_events(&events, sp);
     let none: Vec<EvSpec> = vec![];
-    let te = fracs_to_times(sp, &c.t_eval);
     let plain = match one(c, &prob, &none, None, false) {
         Ok(o) => o,
         Err(e) => return Outcome::triv(format!("plain-run:{}", e.chars().take(30).collect::<String>())),
     };
     let p = &plain.sol;
+    // requested times are placed relative to the plain run's own step grid
+    let te = resolve_places(&c.t_eval, &p.t, sp);
     let mut subsets_checked = 0;
     for mask in 0u8..9 {
         // mask 8 = repeat of the plain call
@@ -156,7 +157,7 @@ pub fn strategy() -> BoxedStrategy<Case> {
         any_method(),
         tols(6, 3.0, 9.0),
         any::<bool>(),
-        t_eval_fracs(15),
+        places(15),
         proptest::collection::vec(event_spec(6, false), 0..=3),
         proptest::option::weighted(0.2, fr(0.02, 0.5)),
         proptest::option::weighted(0.1, 3usize..60),
